@@ -210,6 +210,7 @@ func (r *Report) Outcome(class string) {
 type Local struct {
 	r        *Report
 	evals    int64
+	once     int64
 	keys     []string
 	outcomes map[string]int64
 }
@@ -228,6 +229,16 @@ func (l *Local) Case(key string, nontrivial bool) {
 	}
 }
 
+// CaseOnce counts a case that the enumeration visits exactly once by
+// construction (so distinctness needs no hashing): it is counted in
+// distinct_nontrivial directly when nontrivial is true.
+func (l *Local) CaseOnce(nontrivial bool) {
+	l.evals++
+	if nontrivial {
+		l.once++
+	}
+}
+
 // Outcome is the worker-local version of Report.Outcome.
 func (l *Local) Outcome(class string) { l.outcomes[class]++ }
 
@@ -235,6 +246,8 @@ func (l *Local) Outcome(class string) { l.outcomes[class]++ }
 func (l *Local) Flush() {
 	l.r.mu.Lock()
 	l.r.evaluations += l.evals
+	l.r.distinctN += l.once
+	l.once = 0
 	for _, k := range l.keys {
 		l.r.addDistinctLocked(k)
 	}
